@@ -108,6 +108,8 @@ ANext == \/ \E r \in Regions : \/ \E w \in 1..7 : ASeedReq(r, w)
                                \/ \E i \in 1..10 : ASeedResp(r, i)
                                \/ \E u \in TempUrls(r) : \E n \in TempNames : ARegisterTemp(r, u, n)
                                \/ \E n \in PONameSet : ARegisterProxy(r, n)
+                               \/ (LongGrant(r) /\ md' = [md EXCEPT ![r] = MdAdd(@, Item("CapA", "N", LongUrl(r, NLong(r) + 1)))])
+                               \/ (LongTemp(r) /\ md' = [md EXCEPT ![r] = MdAdd(@, Item("UpTemp", "T", LongUrl(r, NLong(r) + 1)))])
          \/ \E q \in TempReqs : AResolveTemp(q)
 ASpec == AInit /\ [][ANext]_avars
 
